@@ -2,6 +2,7 @@ package v2
 
 import (
 	"bytes"
+	"math"
 	"sync"
 
 	"github.com/hydraide/hydraide/app/core/compressor"
@@ -38,14 +39,16 @@ func (wb *WriteBuffer) Add(entry Entry) bool {
 	wb.entries = append(wb.entries, entry)
 	wb.currentSize += entry.Size()
 
-	return wb.currentSize >= wb.maxSize
+	// BlockHeader.EntryCount is 16 bits wide: flush before the count can wrap,
+	// whatever the configured block size is.
+	return wb.currentSize >= wb.maxSize || len(wb.entries) >= math.MaxUint16
 }
 
 // ShouldFlush returns true if the buffer has reached its maximum size
 func (wb *WriteBuffer) ShouldFlush() bool {
 	wb.mu.Lock()
 	defer wb.mu.Unlock()
-	return wb.currentSize >= wb.maxSize
+	return wb.currentSize >= wb.maxSize || len(wb.entries) >= math.MaxUint16
 }
 
 // IsEmpty returns true if the buffer has no entries
